@@ -114,7 +114,7 @@ package graphql
 //@ func completePlannedValueCatchingError
 //@   props C04 C20 C18
 //@   nosafety
-//@   requires eCtx != nil
+//@   requires eCtx != nil && fp != nil
 //@   assigns class:executionContext.Errors, class:executionContext.Context, class:FormattedError, class:M|*graphql.Object|*graphql.selectionPlan, class:graphql.selectionPlan, class:graphql.fieldPlan, class:M|string|int, class:M|string|bool, class:E|*graphql.fieldPlan, class:E|*ast.Field, class:M|string|interface, class:E|interface, class:E|string, class:graphql.fragmentGate, class:graphql.fragmentTrace, class:E|graphql.collectStep, class:F|[]graphql.collectStep, class:M|string|*graphql.fragmentTrace, class:E|graphql.fragmentSpreadEdge, class:M|string|*graphql.fragmentGate, class:E|func, class:graphql.Plan.expanding, class:M|*ast.Field|bool, class:M|*graphql.fieldPlan|bool, class:M|*graphql.fragmentTrace|bool
 //@   panics typeis(returnType, "*graphql.NonNull")
 //@   at call completePlannedValue#1: assert arg0 == eCtx && arg1 == old(returnType) && arg2 == fp && arg4 == path && arg5 == old(result)
@@ -123,7 +123,7 @@ package graphql
 //@   props C04 C20 C18 C01
 //@   nosafety
 //@   opt maypanic=true
-//@   requires eCtx != nil
+//@   requires eCtx != nil && fp != nil
 //@   assigns class:executionContext.Errors, class:executionContext.Context, class:FormattedError, class:M|*graphql.Object|*graphql.selectionPlan, class:graphql.selectionPlan, class:graphql.fieldPlan, class:M|string|int, class:M|string|bool, class:E|*graphql.fieldPlan, class:E|*ast.Field, class:M|string|interface, class:E|interface, class:E|string, class:graphql.fragmentGate, class:graphql.fragmentTrace, class:E|graphql.collectStep, class:F|[]graphql.collectStep, class:M|string|*graphql.fragmentTrace, class:E|graphql.fragmentSpreadEdge, class:M|string|*graphql.fragmentGate, class:E|func, class:graphql.Plan.expanding, class:M|*ast.Field|bool, class:M|*graphql.fieldPlan|bool, class:M|*graphql.fragmentTrace|bool
 //@   ensures typeis(returnType, "*graphql.NonNull") ==> !isnil(result0)
 //@   at call completePlannedValue: assert arg0 == eCtx && arg1 == as(old(returnType), "*graphql.NonNull").OfType && arg2 == fp && arg4 == path && arg5 == old(result)
@@ -255,7 +255,7 @@ package graphql
 //@   assigns class:executionContext.Errors, class:executionContext.Context, class:FormattedError, class:M|*graphql.Object|*graphql.selectionPlan, class:graphql.selectionPlan, class:graphql.fieldPlan, class:M|string|int, class:M|string|bool, class:E|*graphql.fieldPlan, class:E|*ast.Field, class:M|string|interface, class:E|interface, class:E|string, class:graphql.fragmentGate, class:graphql.fragmentTrace, class:E|graphql.collectStep, class:F|[]graphql.collectStep, class:M|string|*graphql.fragmentTrace, class:E|graphql.fragmentSpreadEdge, class:M|string|*graphql.fragmentGate, class:E|func, class:graphql.Plan.expanding, class:M|*ast.Field|bool, class:M|*graphql.fieldPlan|bool, class:M|*graphql.fragmentTrace|bool
 //@   props C20 C18 C04
 //@   nosafety
-//@   requires eCtx != nil
+//@   requires eCtx != nil && fp != nil
 //@   at[C20,C18] call completePlannedValueCatchingError: assert arg4 != nil && arg4.Prev == path && typeis(arg4.Key, "int") && intval(arg4.Key) == i
 //@   at[C20] call completePlannedValueCatchingError: assert arg0 == eCtx && arg1 == returnType.OfType && arg2 == fp
 //@   loop 1 invariant fresh(completedResults) && len(completedResults) == i && i >= 0
